@@ -17,7 +17,9 @@ BYTES = (0x00, 0x01, 0x7F, 0x80, 0xFF)
 MOTOR_STATES = [(m1, m2, mode) for m1 in (False, True) for m2 in (False, True)
                 for mode in (1, 2, 3, 4, 5)]
 REQ = list(range(-1, 8))
-NICKS = ["Axi", " Axi ", "A B", "0123456789abcdef", "", "   ", "x"]
+NICKS = ["Axi", " Axi ", "A B", "0123456789abcdef", "", "   ", "x",
+         # names that begin with the characters of the reply header ("QT,") itself
+         "Tina", "Quill", "QT-3", "QT", "Q", "T", "TQ", ",lead", "qt", "A,B"]
 
 
 def clamp(res):
@@ -224,7 +226,7 @@ def run(ctx):
                 "slot 0..28, write/read-back and direct RAM inspection; overlapping double "
                 "writes; motors: all 20 board motor states (installed directly and reached via "
                 "library calls) x (r1,r2) in -1..7 squared, then depth-2/3 chains; nicknames: "
-                "7 x 7 prior/written; non-trivial = negative or >= 2^24 values, overlapping "
+                "17 x 17 prior/written (incl. names starting with the reply header characters); non-trivial = negative or >= 2^24 values, overlapping "
                 "slots, every motor and nickname history",
         "samples": core.rotate(part.samples, ctx.seed, 4),
         "int32_values": len(values),
